@@ -10,6 +10,14 @@ E3 = "procsim (process-level simulator: strace syscall fault / kill injection)"
 
 # id -> (engine, category, technique, level text, level note, design ref)
 CHECKS = {
+ "C07": (E1, "exploration",
+   "deterministic simulation of a Byzantine delegatee: seeded delegation trees with out-of-scope and shadowing entries, checked against a reference pre-order lookup through load + read_target",
+   "Seeded trees (depth <=3, fan-out <=3) whose roles list entries outside their delegated paths or shadow names of earlier roles; path sets from literals, '*', '?', hash prefixes; names needing resolution. Oracle: reference pre-order lookup with pruning; load must fail iff some listed name has no authorised entry; for every name read_target must accept exactly the content signed by the reference entry. Wildcard/separator-ambiguous cases are not judged.",
+   "Weakest fit for simulation (no clock, storage or schedule): the deciding step is seeded generation against a reference model, through the full client. Trusts the harness glob reference on unambiguous cases.", "DESIGN.md §5 C07"),
+ "C08": (E1, "fault_enumeration",
+   "deterministic simulation: observer interleaved at every poll of the target stream; every failure position of each transfer enumerated (corruption, oversize, transport error before each chunk) on a real sandbox directory",
+   "Names over {a b . / \\ space % ~} enumerated to length 5 (thorough: all 37 448) plus seeded names to length 40. For each name every failing delivery (bit flip, oversize, transport error before chunk k for every k) and then the clean one is run against one sandbox; an observer scans the whole sandbox (and the predicted escape path) at every poll of the target stream and after return. Invariants: nothing outside the output directory changes; the destination is absent, the previous file or the complete signed content at every observation; failed attempts leave all regular files unchanged; success leaves exactly the signed bytes.",
+   "Real file system without disk faults; destination predicted by an independent path model; the last-write-error path of save_target (needs disk faults) is out of reach here.", "DESIGN.md §5 C08"),
  "C05": (E1, "exploration",
    "deterministic simulation: the adversary serves each metadata file from any repository state and in any byte variant (mix-and-match delivery); oracle over the bytes actually served",
    "1..3 genuinely signed repository states with role versions 1..3, pins by version only / +length / +sha256, four byte variants per document (compact, pretty, member order reversed, junk signature entry), delegated role listed or omitted; SimTransport answers each request from a scenario-chosen (state, variant). On success the bytes served must match version, digest and length pinned by the document actually trusted above; matching servings must not be refused for pin reasons; under consistent snapshots the version-prefixed name from the pinning document must be the one requested.",
